@@ -71,6 +71,11 @@ class ClassGen:
                 if m not in info['callable_fields']:
                     info['callable_fields'].append(m)
                 self.tags.add('field_shadows_method')
+            # a field that will hold another instance: self.link.<field> chains
+            if r.random() < 0.5:
+                assigns.append(ExprS(Assign(Prop(Self(), 'link') if r.random() < 0.5 else At('link'), Nil())))
+                if 'link' not in info['fields']:
+                    info['fields'].append('link')
             if r.random() < 0.3 and assigns:
                 # assignment nested in a block still declares the field
                 assigns = [If(Bool(True), assigns[:1])] + assigns[1:]
@@ -102,6 +107,26 @@ class ClassGen:
             body = [Return(e)] if r.random() < 0.5 else [Implicit(e)]
             methods.append(Fn(m, [], body))
             info['methods'][m] = name
+        if 'link' in info['fields']:
+            # chained access through a field of self: the second trailer must be looked up by name
+            f = r.choice(FIELDS)
+            first = Prop(Self(), 'link') if r.random() < 0.6 else At('link')
+            methods.append(Fn('peek', [], [If(Bin('==', first, Nil()), [Return(Str('nolink'))]),
+                                           Return(Interp(['peek:', Prop(first, f)]))]))
+            methods.append(Fn('poke', ['v'], [ExprS(Assign(Prop(Prop(Self(), 'link'), f), Var('v'))),
+                                              Return(Prop(Prop(Self(), 'link'), f))]))
+            info['methods']['peek'] = name
+            info['methods']['poke'] = name
+            info['peek_field'] = f
+            self.tags.add('self.link.field')
+        if parent is not None and r.random() < 0.3:
+            ms = [m for m in METHODS if m in parent['methods'] and m not in parent['callable_fields']]
+            if ms:
+                m = r.choice(ms)
+                # super.m taken as a value (not fused into a super invoke), then called
+                methods.append(Fn('viaSuper', [], [Let('s', Super(m)), Return(Bin('+', Str('via:'), Call(Var('s'), [])))]))
+                info['methods']['viaSuper'] = name
+                self.tags.add('super.value')
         statics = []
         if r.random() < 0.4:
             statics.append(Fn('make', ['x'], [Return(Bin('+', Str(name + '.make:'), Interp([Var('x')])))]))
@@ -169,6 +194,18 @@ def case(rng):
             else:
                 args = [Var(oname)]
             stmts.append(guarded_print([Call(Var(sname), args)], '%d %s %s' % (k, sname, oname)))
+    # link instances together and read / write through self.link.<field>
+    linked = [(o, i) for o, i in objs if 'link' in i['fields']]
+    for oname, info in linked[:4]:
+        other, oinfo = r.choice(objs)
+        stmts.append(ExprS(Assign(Prop(Var(oname), 'link'), Var(other))))
+        if 'peek' in info['methods']:
+            stmts.append(guarded_print([Call(Prop(Var(oname), 'peek'), [])], 'peek %s->%s' % (oname, other)))
+            stmts.append(guarded_print([Call(Prop(Var(oname), 'poke'), [Str(g.tag())])], 'poke %s->%s' % (oname, other)))
+            stmts.append(guarded_print([Call(Prop(Var(oname), 'peek'), [])], 'peek2 %s->%s' % (oname, other)))
+    for oname, info in objs:
+        if 'viaSuper' in info['methods'] and r.random() < 0.7:
+            stmts.append(guarded_print([Call(Prop(Var(oname), 'viaSuper'), [])], 'viaSuper ' + oname))
     # direct forms: bound method passed around, statics, undeclared access
     for oname, info in r.sample(objs, min(len(objs), 3)):
         ms = [m for m in info['methods'] if m in METHODS]
